@@ -38,7 +38,8 @@ func VH_C12c() {
 	if vsym.Choice("prior", 2) == 1 {
 		vsym.Assert(Do(h, BodyReq("PUT", "/bkt/k", http.Header{"X-Amz-Meta-A": {"old"}}, []byte("old"))).Code() == 200, "C12c/prior")
 	}
-	nch := 1 + vsym.Choice("nchunks", vsym.Param("maxchunks", 2))
+	// zero chunks: the empty payload, framed as the final chunk alone
+	nch := vsym.Choice("nchunks", vsym.Param("maxchunks", 2)+1)
 	var chunks [][]byte
 	var payload []byte
 	for i := 0; i < nch; i++ {
@@ -48,7 +49,11 @@ func VH_C12c() {
 	}
 	stream := frameChunks(chunks)
 	wellFormed := true
-	switch vsym.Choice("damage", 4) {
+	damage := vsym.Choice("damage", 4)
+	if nch == 0 && damage != 0 {
+		vsym.Assume(false) // the damage variants below are about a stream that has a data chunk
+	}
+	switch damage {
 	case 0:
 	case 1: // the byte after the size is free (a ';' keeps it well formed)
 		stream[1] = vsym.Byte("sep")
@@ -70,6 +75,9 @@ func VH_C12c() {
 		wellFormed = false
 	}
 	declared := len(payload) - 1 + vsym.Choice("declared", 3)
+	if declared < 0 {
+		vsym.Assume(false) // negative declared lengths belong to C09's grammar
+	}
 	hdr := http.Header{
 		"X-Amz-Content-Sha256":         {"STREAMING-AWS4-HMAC-SHA256-PAYLOAD"},
 		"X-Amz-Decoded-Content-Length": {itoa(declared)},
